@@ -43,7 +43,10 @@ def run_case(arg):
     sino = np.array(case["sino"], dtype=np.float64)          # (A, N), of the disc-masked image
     sino2 = np.array(case["sino2"], dtype=np.float64)
     bp = np.array(case["bp"], dtype=np.float64) * np.pi / (2 * len(ang))
-    tag = f"N={n} angles={case['angles']} case={idx}"
+    # both transforms are linear: the same image / sinogram is also handed over in another unit (an exact power of two) and the
+    # result brought back
+    u = (1.0, 2.0 ** -20, 2.0 ** 16)[(idx // 3) % 3]
+    tag = f"N={n} angles={case['angles']} unit={u:g} case={idx}"
     th = torch.tensor(ang, dtype=torch.float32)
     tol = 2e-5 * max(1.0, float(np.abs(sino).max()) * n)
 
@@ -51,9 +54,9 @@ def run_case(arg):
         out.append((key, f"{tag}: {msg}"))
     try:
         for dt in (torch.float32,):      # (float64 images are rejected by grid_sample against the float32 grid; dtypes are not in the claim)
-            x = torch.tensor(img, dtype=dt)
+            x = torch.tensor(img * u, dtype=dt)
             x0 = x.clone()
-            s = radon_torch(x, theta=th).detach().cpu().numpy().reshape(len(ang), n)
+            s = radon_torch(x, theta=th).detach().cpu().numpy().astype(np.float64).reshape(len(ang), n) / u
             if not torch.equal(x, x0):
                 bad("C07:inputs-modified", "radon_torch modified its input image")
             if np.abs(s - sino).max() > tol:
@@ -63,8 +66,8 @@ def run_case(arg):
                     f"{sino[k].tolist()}" + (" (= column sums of the disc-masked image)" if ang[k] == 0 else ""))
                 break
             # batched call = per-image calls; linear: third image is the sum of the first two
-            batch = torch.tensor(np.stack([img, img2, img + img2]), dtype=dt)
-            sb = radon_torch(batch, theta=th).detach().cpu().numpy().reshape(3, len(ang), n)
+            batch = torch.tensor(np.stack([img, img2, img + img2]) * u, dtype=dt)
+            sb = radon_torch(batch, theta=th).detach().cpu().numpy().astype(np.float64).reshape(3, len(ang), n) / u
             if np.abs(sb[0] - s).max() > 1e-6 * max(1.0, np.abs(s).max()):
                 bad("C07:radon:batch", "batched call differs from the single-image call")
             if np.abs(sb[1] - sino2).max() > tol:
@@ -72,9 +75,9 @@ def run_case(arg):
             if np.abs(sb[2] - (sino + sino2)).max() > 2 * tol:
                 bad("C07:radon:linear", "radon(x + y) != radon(x) + radon(y)")
             # unfiltered back-projection of the exact sinogram
-            y = torch.tensor(sino, dtype=dt)
+            y = torch.tensor(sino * u, dtype=dt)
             y0 = y.clone()
-            r = iradon_torch(y, theta=th, filter_name=None).detach().cpu().numpy()
+            r = iradon_torch(y, theta=th, filter_name=None).detach().cpu().numpy().astype(np.float64) / u
             if not torch.equal(y, y0):
                 bad("C07:inputs-modified", "iradon_torch modified its input sinogram")
             if not torch.equal(th, torch.tensor(ang, dtype=torch.float32)):
@@ -86,11 +89,11 @@ def run_case(arg):
                     f"{np.abs(r - bp).max() if r.shape == bp.shape else 'shape ' + str(r.shape):.4g}" if r.shape == bp.shape else
                     f"shape {r.shape} != {bp.shape}")
                 break
-            yb = torch.tensor(np.stack([sino, sino2, sino + sino2]), dtype=dt)
-            rb = iradon_torch(yb, theta=th, filter_name=None).detach().cpu().numpy()
+            yb = torch.tensor(np.stack([sino, sino2, sino + sino2]) * u, dtype=dt)
+            rb = iradon_torch(yb, theta=th, filter_name=None).detach().cpu().numpy().astype(np.float64) / u
             if np.abs(rb[0] - r).max() > 1e-6 * max(1.0, np.abs(r).max()):
                 bad("C07:iradon:batch", "batched back-projection differs from the single call")
-            r2 = iradon_torch(torch.tensor(sino2, dtype=dt), theta=th, filter_name=None).detach().cpu().numpy()
+            r2 = iradon_torch(torch.tensor(sino2 * u, dtype=dt), theta=th, filter_name=None).detach().cpu().numpy().astype(np.float64) / u
             if np.abs(rb[2] - (r + r2)).max() > 4 * rt:
                 bad("C07:iradon:linear", "iradon(x + y) != iradon(x) + iradon(y)")
     except Exception as ex:  # noqa: BLE001
